@@ -24,14 +24,25 @@ def run(ck):
     r = ck.mc('Timer', 'MC_Timer_pinned.cfg', must_hold=False, coverage=False)
     if r.violated != 'SkipIsTicks':
         raise __import__('vlib').Infra('the pinned Timer::Skip model no longer shows defect D2 (model drifted)')
+    # 1b. full width (B = 65536: all 2^32 counters and start values), symbolically: the induction step of
+    #     Skip(k) = Tick^k within the horizon, Skip(0) = identity, the horizon is tight (Apalache on TimerInd.tla);
+    #     TLC checks at B = 3, for all states, that TimerInd's operators are those of TimerOps.tla.
+    #     The step lemma takes minutes: thorough tier; the other two lemmas run in both tiers.
+    ck.mc('TimerIndSame', 'MC_TimerIndSame.cfg', workers=4, coverage=False)
+    ck.apalache('TimerInd', 'TimerInd.cfg', 'ZeroLemma', timeout=900)
+    ck.apalache('TimerInd', 'TimerInd.cfg', 'HorizonLemma', timeout=900)
+    if ck.thorough:
+        ck.apalache('TimerInd', 'TimerInd.cfg', 'StepLemma', timeout=3000)
     # 2. conformance
     files = record(ck)
     ck.validate_traces('TimerTrace', 'Trace_Timer.cfg', files)
     ck.sample_lines(files[0], 4, skip=5)
     ck.assumptions += ['Timer.tla is a faithful reading of the C15 statement (reviewed by hand)',
                        'TLC, the Json/IOUtils community modules and g++ are trusted',
-                       'full 32-bit width is covered by trace validation and by the base-B exhaustive model, '
-                       'not by exhaustive enumeration at B=65536']
+                       'full 32-bit width: the induction step Skip(t,k+1) = Tick(Skip(t,k)) for k below the horizon, Skip(t,0) = t and '
+                       'the tightness of the horizon are proved for ALL states at B = 65536 by Apalache/SMT (TimerInd.tla, step lemma '
+                       'in the thorough tier); histories of several calls are exhaustive only at the scaled base and sampled at full '
+                       'width by trace validation; Apalache and Z3 are trusted']
 
 
 def record(ck):
